@@ -3,4 +3,4 @@
 From Coq Require Import Extraction ExtrOcamlBasic.
 From PV Require Import Blocks.Model.
 Extraction Language OCaml.
-Extraction "blocks_model.ml" compute_order compute_predecessors build_ops wf_opsb anext_okb plainb merge_simpleb add_setup_except.
+Extraction "blocks_model.ml" compute_order compute_predecessors build_ops wf_opsb anext_okb plainb merge_simpleb add_setup_except wf_excb.
